@@ -48,7 +48,8 @@ func (m *MTProto) sendPacket(request tl.Object, expectedTypes ...reflect.Type) (
 	resp := m.getRespChannel()
 	if isNullableResponse(request) {
 		go func() { resp <- &objects.Null{} }() // goroutine cuz we don't read from it RIGHT NOW
-	} else {
+	} else if !m.serviceModeActivated {
+		// during the key exchange answers are not matched by msg_id: they all go to the service channel
 		m.responseChannels.Add(int(msgID), resp)
 	}
 
